@@ -532,6 +532,10 @@ func (builder *ProcessBuilder) AddActivity(act ActivityInterface) *ProcessBuilde
 		b.ReceiveTaskField = append(b.ReceiveTaskField, *tv)
 	case *SubProcess:
 		b.SubProcessField = append(b.SubProcessField, *tv)
+	case *AdHocSubProcess:
+		b.AdHocSubProcessField = append(b.AdHocSubProcessField, *tv)
+	case *Transaction:
+		b.TransactionField = append(b.TransactionField, *tv)
 	}
 	return b
 }
